@@ -69,9 +69,11 @@ deriving Repr, DecidableEq
 
 /-- the code as it is. `oldDayUnmarked` (#13), `syncDeletionLocalDayUnmarked`, `lazyScan`, `refDeletionUnmarked` (#3)
     and `refDeletionTouchesRowWithoutRef` (#3) were fixed in /repo (commits 8123d04, 1a9cbe6, 079e672, 9b21e0a,
-    456214b) and are off; their witnesses and replays stay as regression cases. -/
+    456214b) and are off; so are `historySeedDropped`, `entityNotCompared` and `emptyDayRow` (#20) since the three repairs
+    `findings/C09-1-seed-row-loaded.patch`, `C09-2-entity-compared.patch`, `C09-3-emptied-day-dropped.patch`
+    (`Defects.beforeFixHistory` is the code before them); their witnesses and replays stay as regression cases. -/
 def Defects.asImplemented : Defects :=
-  { historySeedDropped := true, entityNotCompared := true, emptyDayRow := true, oldDayUnmarked := false,
+  { historySeedDropped := false, entityNotCompared := false, emptyDayRow := false, oldDayUnmarked := false,
     refDeletionUnmarked := false, refDeletionTouchesRowWithoutRef := false,
     syncDeletionLocalDayUnmarked := false, ingestIgnoresTombstones := true,
     rightDependsOnLocalAuthor := true, edgesOnlyForFetchedRows := true, syncDeletionKeepsEdges := true,
